@@ -76,7 +76,10 @@ def run(facts, rep, tier):
     for need in ("graphs::SerializableContextBody::recover_original_context",
                  "graphs::SerializableContextBody::recover_original_graph",
                  "data_values::Value::from_serializable_value"):
-        rep.ob("C12.P", "anchor:%s" % need, need in layer, "decoder function %s is in the analysed layer" % need)
+        if need in facts.bodies:
+            rep.anchor("C12.P", "%s|reached from the deserialize entry points" % need, need in layer)
+        else:
+            rep.anchor("C12.P", need, None)
     # ---------------- C12.P / C12.A
     ncalls = 0
     for name in sorted(layer):
@@ -139,20 +142,53 @@ def run(facts, rep, tier):
                 continue
             nidx += 1
             ok, why = index_guarded(b, fl, bb, data, elem, guards)
-            if not ok and all(o_[0] == "param" and not o_[2] for o_ in data) and b.kind != "closure":
-                # a helper indexes with a bare parameter ("must have been validated beforehand"): lift to every call site
-                sites = [(n2, facts.bodies[n2], cbb, ct) for n2 in sorted(layer) for cbb, ct in facts.bodies[n2].calls()
-                         if callee_name(ct) == name and not facts.bodies[n2].is_cleanup(cbb)]
+            if not ok and all(o_[0] == "param" and not o_[2] for o_ in data):
+                # a helper / local closure indexes with a bare parameter ("validated beforehand"): lift to every call site
+                sites = []
+                for n2 in sorted(layer):
+                    cb2 = facts.bodies[n2]
+                    for cbb, ct in cb2.calls():
+                        if callee_name(ct) != name or cb2.is_cleanup(cbb):
+                            continue
+                        if b.kind != "closure":
+                            sites.append((n2, cb2, cbb, {i + 1: (a_, (cbb, None)) for i, a_ in enumerate(ct["args"])}))
+                            continue
+                        binds = None
+                        cfl0 = Flow(facts, cb2)
+                        if len(ct["args"]) == 2 and ct["args"][1][0] != "k":
+                            for di in cfl0.defs_of.get(ct["args"][1][1][0], []):
+                                _, db, dj = cfl0.defs[di]
+                                if db >= 0 and dj is not None:
+                                    rv_ = cb2.stmts(db)[dj][2]
+                                    if rv_[0] == "agg" and rv_[1].get("k") == "tuple":
+                                        binds = {i + 2: (o2, (db, dj)) for i, o2 in enumerate(rv_[2])}
+                        sites.append((n2, cb2, cbb, binds))
                 lifted = bool(sites)
                 notes = []
-                for n2, cb2, cbb, ct in sites:
+                for n2, cb2, cbb, binds in sites:
                     cfl = Flow(facts, cb2)
                     cdata = set()
                     for o_ in data:
-                        if o_[1] - 1 < len(ct["args"]) and ct["args"][o_[1] - 1][0] != "k":
-                            cdata |= {x for x in cfl.origins(ct["args"][o_[1] - 1], (cbb, None)) if x[0] in ("param", "upvar")}
+                        if binds and o_[1] in binds and binds[o_[1]][0][0] != "k":
+                            cdata |= {x for x in cfl.origins(binds[o_[1]][0], binds[o_[1]][1]) if x[0] in ("param", "upvar")}
                     ok2, why2 = index_guarded(cb2, cfl, cbb, sorted(cdata), elem, collect_guards(facts, cb2, cfl)) if cdata else (False, "argument not traced")
-                    # at a call site there is no receiver container: compare datum and element type only
+                    if not ok2 and cdata and all(x[0] == "param" and x[1] == 1 and x[2] for x in cdata) and cb2.kind != "closure":
+                        # the call site sits in a method of the deserialized struct that is itself called after the table was
+                        # validated: look one level further up, same `self`, same field paths
+                        ups = [(n3, facts.bodies[n3], ubb) for n3 in sorted(layer) for ubb, ut in facts.bodies[n3].calls()
+                               if callee_name(ut) == n2 and not facts.bodies[n3].is_cleanup(ubb)
+                               and ut["args"] and ut["args"][0][0] != "k"]
+                        if ups:
+                            ok_up = True
+                            for n3, ub3, ubb in ups:
+                                ufl = Flow(facts, ub3)
+                                if not any(o3[0] == "param" and o3[1] == 1 and not o3[2] for o3 in ufl.origins(ub3.term(ubb)["args"][0], (ubb, None))):
+                                    ok_up = False
+                                    continue
+                                o3k, _ = index_guarded(ub3, ufl, ubb, sorted(cdata), elem, collect_guards(facts, ub3, ufl))
+                                ok_up = ok_up and o3k
+                            if ok_up:
+                                ok2, why2 = True, "validated in %s before %s is called" % (ups[0][0].split("::")[-1], n2.split("::")[-1])
                     lifted = lifted and ok2
                     notes.append("%s: %s" % (n2.split("::")[-1], why2))
                 if lifted:
@@ -466,7 +502,7 @@ def field_agreement(facts, rep):
                ("graphs::SerializableNodeBody", f["name"]) in rd,
                "recover_original_graph reads SerializableNodeBody.%s" % f["name"])
     # equality
-    eq = fields_read_deep(facts, "graphs::contexts_deep_equal", depth=1)
+    eq = fields_read_deep(facts, "graphs::contexts_deep_equal", depth=1, free_fn_depth=3)
     for f in cb:
         if f["name"] in DERIVED_CONTEXT_FIELDS:
             continue
@@ -578,58 +614,66 @@ def value_type_check_is_length_exact(facts, rep):
                       "unreachable when the comparison between the number of children and the number of element types says "
                       "'different', and a byte-array verdict is itself an equality between bytes.len() and the type's size - a "
                       "constant that lost or gained children in the payload is rejected, not turned into an ill-typed node")
-    b = facts.body("data_values::Value::check_type")
-    if not rep.anchor("C12.T", "data_values::Value::check_type", b):
+    root = facts.body("data_values::Value::check_type")
+    if not rep.anchor("C12.T", "data_values::Value::check_type", root):
         return
-    fl = Flow(facts, b)
-
-    def from_len(op, at):
-        return any(o[0] == "call" and (o[2] or "").endswith("::len") for o in fl.origins(op, at))
-
-    cmps = []       # (local, is_eq) of Eq/Ne between two lengths;  ordering comparisons are remembered separately
-    ordering = 0
-    for bb, j, place, rv in b.assigns():
-        if rv[0] != "bin" or len(place) != 1 or b.is_cleanup(bb):
-            continue
-        if rv[1] in ("Eq", "Ne") and from_len(rv[2], (bb, j)) and from_len(rv[3], (bb, j)):
-            cmps.append((place[0], rv[1] == "Eq", bb))
-        elif rv[1] in ("Lt", "Le", "Gt", "Ge") and from_len(rv[2], (bb, j)) and from_len(rv[3], (bb, j)):
-            ordering += 1
+    # check_type and the private helpers it delegates to (`is_bytes_of_length`, `check_children_types`, ..)
+    fam = [root]
+    for _, t_ in root.calls():
+        hb = facts.bodies.get(callee_name(t_) or "")
+        if hb is not None and hb not in fam and hb.kind != "closure" and hb.file == root.file and \
+                (hb.local_ty(0) == "bool" or hb.local_ty(0).startswith("std::result::Result<bool")):
+            fam.append(hb)
     n = 0
-    for bb, j, place, rv in b.assigns():
-        if b.is_cleanup(bb) or not (rv[0] == "agg" and rv[1].get("vn") == "Ok" and rv[2]):
-            continue
-        op = rv[2][0]
-        if op[0] == "k":
-            if op[2] not in ("true", "const true") and str(op[4]) != "1":
+    for b in fam:
+        fl = Flow(facts, b)
+
+        def from_len(op, at):
+            return any(o[0] == "call" and (o[2] or "").endswith("::len") for o in fl.origins(op, at))
+
+        cmps = []       # (local, is_eq) of Eq/Ne between two lengths;  ordering comparisons are remembered separately
+        ordering = 0
+        for bb, j, place, rv in b.assigns():
+            if rv[0] != "bin" or len(place) != 1 or b.is_cleanup(bb):
                 continue
-            # Ok(true)
-            n += 1
-            ok = False
-            for cl, is_eq, cb in cmps:
-                res = V.executable_under(facts, b, forced={cl: ("b", not is_eq)})
-                if bb not in res.blocks:
-                    ok = True
-            if not ok and not cmps and ordering:
-                rep.note("C12.T: check_type relates the two lengths only by ordering comparisons; not judged")
+            if rv[1] in ("Eq", "Ne") and from_len(rv[2], (bb, j)) and from_len(rv[3], (bb, j)):
+                cmps.append((place[0], rv[1] == "Eq", bb))
+            elif rv[1] in ("Lt", "Le", "Gt", "Ge") and from_len(rv[2], (bb, j)) and from_len(rv[3], (bb, j)):
+                ordering += 1
+        for bb, j, place, rv in b.assigns():
+            if b.is_cleanup(bb) or not (rv[0] == "agg" and rv[1].get("vn") == "Ok" and rv[2]):
                 continue
-            rep.ob("C12.T", "check_type|Ok(true)#%d" % n, ok,
-                   "this acceptance is unreachable when children.len() and types.len() differ" if ok else
-                   "check_type can answer Ok(true) without an equality test between the number of children and the number of "
-                   "element types: a composite constant with missing (or extra) children type-checks", b.loc(bb))
-        else:
-            # Ok(<computed bool>): must be an equality involving a length
-            ors = fl.origins(op, (bb, j))
-            bins = [o for o in ors if o[0] == "bin"]
-            if not bins:
-                continue
-            n += 1
-            good = all(b.stmts(o[1])[o[2]][2][1] == "Eq" and
-                       (from_len(b.stmts(o[1])[o[2]][2][2], (o[1], o[2])) or from_len(b.stmts(o[1])[o[2]][2][3], (o[1], o[2])))
-                       for o in bins)
-            rep.ob("C12.T", "check_type|Ok(cmp)#%d" % n, good,
-                   "the byte-array verdict is an equality between bytes.len() and the size computed from the type" if good else
-                   "the byte-array verdict is not an equality on bytes.len(): values of another size are accepted", b.loc(bb))
+            op = rv[2][0]
+            if op[0] == "k":
+                if op[2] not in ("true", "const true") and str(op[4]) != "1":
+                    continue
+                # Ok(true)
+                n += 1
+                ok = False
+                for cl, is_eq, cb in cmps:
+                    res = V.executable_under(facts, b, forced={cl: ("b", not is_eq)})
+                    if bb not in res.blocks:
+                        ok = True
+                if not ok and not cmps and ordering:
+                    rep.note("C12.T: check_type relates the two lengths only by ordering comparisons; not judged")
+                    continue
+                rep.ob("C12.T", "check_type|Ok(true)#%d" % n, ok,
+                       "this acceptance is unreachable when children.len() and types.len() differ" if ok else
+                       "check_type can answer Ok(true) without an equality test between the number of children and the number of "
+                       "element types: a composite constant with missing (or extra) children type-checks", b.loc(bb))
+            else:
+                # Ok(<computed bool>): must be an equality involving a length
+                ors = fl.origins(op, (bb, j))
+                bins = [o for o in ors if o[0] == "bin"]
+                if not bins:
+                    continue
+                n += 1
+                good = all(b.stmts(o[1])[o[2]][2][1] == "Eq" and
+                           (from_len(b.stmts(o[1])[o[2]][2][2], (o[1], o[2])) or from_len(b.stmts(o[1])[o[2]][2][3], (o[1], o[2])))
+                           for o in bins)
+                rep.ob("C12.T", "check_type|Ok(cmp)#%d" % n, good,
+                       "the byte-array verdict is an equality between bytes.len() and the size computed from the type" if good else
+                       "the byte-array verdict is not an equality on bytes.len(): values of another size are accepted", b.loc(bb))
     rep.analysed["check_type_acceptance_sites"] = n
     rep.anchor("C12.T", "check_type|acceptance sites (Ok(true) / Ok(len == size))", n >= 1)
 
